@@ -72,7 +72,7 @@ CHECKS.update({
    text="Tune.tla transcribes the request/effect relation of misc/tune2fs.c (update_feature_set, main: Refused / Effect / AllowedChange / rewrite obligations); TLC explores every sequence of <= 3 "
         "accepted requests from each starting profile and checks that no reachable feature set is one the library or e2fsck rejects and that every checksum-key change is followed by a rewrite covering "
         "every checksummed object class. Conformance: the request universe is enumerated by the spec (Emit_Tune), each request sequence runs the real tune2fs on populated base images and each step "
-        "is a trace line validated by TLC (Trace_Tune): abstract(after) = Effect(op, before), changed superblock fields inside AllowedChange, requested e2fsck succeeded, e2fsck -fn clean, tree equal. Tune.tla defines the starting-image catalogue every profile must contain (20 owners per quota type, extent tree of depth 2, directory extent tree of depth 1, full dx root and interior node) and RealUsage / QuotaFileOK; an independent quota-tree parser and the reader's per-class stale-checksum report are mandatory observations on the lines that need them.",
+        "is a trace line validated by TLC (Trace_Tune): abstract(after) = Effect(op, before), changed superblock fields inside AllowedChange, requested e2fsck succeeded, e2fsck -fn clean, tree equal. Tune.tla defines the starting-image catalogue every profile must contain (20 owners per quota type, extent tree of depth 2, directory extent tree of depth 1, full dx root and interior node) and RealUsage / QuotaFileOK; an independent quota-tree parser and the reader's per-class stale-checksum report are mandatory observations on the lines that need them. The journalling mode is one 2-bit field of the abstract state (FieldPairs: every transition between its values through -o), QuotaInoAllowed states which inodes a quota file may occupy (catalogue variant with inode 11 free), AllocSeqs orders requests that allocate.",
    note="Trusted: TLC, lib/sbparse.py, lib/absstate.py tree digest (via debugfs rdump + stat listing), e2fsck -fn. -I inode resize only 128->256; external journals and mounted-filesystem paths not exercised.",
    technique="TLA+ spec of tune2fs's feature-change contract model-checked with TLC + trace validation of real tune2fs runs enumerated by the spec"),
  "C13": dict(level="model_checking",
@@ -80,7 +80,7 @@ CHECKS.update({
         "auxiliary files (the -z undo file, the undo log e2undo replays: writes there never touch the target); ToolRunUniv.tla holds the catalogues TLC enumerates (60 read-only -z invocations, journal x orphan "
         "image axes, 272 e2undo dry runs per profile with the outcome a model of e2undo's guard chain expects); TLC checks them exhaustively. Conformance: image states (7 profiles x {clean, journal needing recovery, orphans, MMP, quota, ~40 corruption recipes, seeded metadata damage}) x every documented read-only "
         "command line of every tool and every debugfs request without -w run under LD_PRELOAD=iotrace.so; the recorded event stream + {exit, signal, sha256 before = after} is validated by TLC "
-        "against Trace_ToolRun: any write-class call on a writable descriptor of the target, O_TRUNC/O_CREAT open or changed digest rejects the trace.",
+        "against Trace_ToolRun: any write-class call on a writable descriptor of the target, O_TRUNC/O_CREAT open or changed digest rejects the trace. The target is a set: the image and, when the filesystem names one, its external journal device (ExtJRuns); a write to either rejects.",
    note="Trusted: TLC, harness/iotrace.so (control runs prove it sees writes), sha256 of the image. mmap writes and direct syscalls are not interposed (the tools use neither). Block devices are not available in the sandbox.",
    technique="TLA+ protocol spec (TLC) + trace validation of system-call recordings of real read-only tool runs"),
  "C15": dict(level="model_checking",
@@ -129,7 +129,7 @@ CHECKS.update({
    text="Ext4Abs.tla states the ext4 consistency invariants independently of libext2fs (InRange, NotFixedMeta, SingleOwner, BitmapsExact, GroupCounts, Links, Shapes, Csums); Fsck.tla (design model) is "
         "checked by TLC for `FsckN clean <=> Consistent` on every state reachable by <= 2 corruptions, with design mutants that must break it. Conformance: for every element of the TLC-enumerated "
         "corruption universe the real `e2fsck -fn` runs on the corrupted copy, the independent reader projects the same bytes, and TLC (Trace_Tools, TFsckN) evaluates FailedConjuncts(st0) and "
-        "C02_Holds == exit = 0 => Consistent on the logged line. C02Closed adds bitmap pointers relocated onto fixed metadata of earlier and later groups and resize-inode map entries; C02's own tool-built htree images carry names >= 0x80 under every hash version x signedness.",
+        "C02_Holds == exit = 0 => Consistent on the logged line. C02Closed adds bitmap pointers relocated onto fixed metadata of earlier and later groups and resize-inode map entries; C02's own tool-built htree images carry names >= 0x80 under every hash version x signedness; C02Bounds adds every *_hi half of the 64-byte descriptor and of large inodes and the exact boundary values of every range test (BoundTriples), ExtraHashRecipes / ExtraSbRecipes bind every bit of s_flags and s_def_hash_version on those images.",
    note="Trusted: TLC, reader/ext4read.py (cross-validated against e2fsck -fn on the 232 images of the repository's suite and 200 mutated images), gen/corrupt.py. A state the reader cannot produce is "
         "'unknown' (counted, never a violation). Violations are restricted to the rule classes the property text lists (Ext4Abs!Shapes / Links are stricter). One known finding (out-of-range i_file_acl on "
         "inodes no directory entry names).",
